@@ -503,7 +503,9 @@ def is_call(t, suffix=None, name=None):
     if suffix is not None and not t[1].endswith(suffix):
         return False
     if name is not None and t[1].rsplit("::", 1)[-1] != name:
-        return False
+        # `C::from_iter(it)` is `it.collect::<C>()`
+        if not (name == "collect" and t[1].rsplit("::", 1)[-1] == "from_iter" and len(t[2]) == 1):
+            return False
     return True
 
 
